@@ -4,11 +4,13 @@ CONSTANTS
     CacheSound = FALSE
     MaxAlter = 1
     TamperFields = {"prev", "epoch", "avk", "params", "msgEpoch", "nextAvk", "nextParams", "signedMsg", "sig", "kind", "genSig"}
-    ForgeKeys = {"H2", "H3", "H4", "A"}
+    ForgeEpochs = {1, 2, 3, 4}
+    Forge2Pars = {"p"}
+    ForgeKeys = {"H3", "H4", "A"}
     ForgePars = {"p", "q"}
-    ForgeNextAvk = {"H3", "H4", "A"}
+    ForgeNextAvk = {"H4", "A"}
     ForgeNextPars = {"p", "q"}
     ForgeLevels = 2
 SPECIFICATION Spec
-INVARIANTS ChainSound Terminates
+INVARIANTS ChainSound Terminates GenPrint
 CHECK_DEADLOCK FALSE
